@@ -207,20 +207,25 @@ def r13_3(ctx):
                 ctx.violation(construct(f, "conveyor-rule-blocks"), f.loc(), f"a component placed {placed} cannot enter workplace B (declared inputs: {inputs}) although the conveyor rule allows it")
     # can_put numeric boundary
     cp = ctx.repo.method(WORKPLACE, "can_put")
-    for size, exp in ((0.5, True), (1.0, True), (1.5, False), (3.0, False)):
-        # c1 is a top-level component, c2 a child placed on its own (its parent is elsewhere): both take space here
-        c1, c2, cand, par = Obj("c1", COMPONENT), Obj("c2", COMPONENT), Obj("cand", COMPONENT), Obj("par", COMPONENT)
-        heap = {("self", "max_space_size"): Poly.const(3), ("c1", "space_size"): Poly.const(1), ("c2", "space_size"): Poly.const(1), ("cand", "space_size"): Poly.const(size),
-                ("c1", "parent_component_list"): ListV([]), ("c2", "parent_component_list"): ListV([par]), ("c1", "child_component_list"): ListV([]),
-                ("c2", "child_component_list"): ListV([]), ("par", "space_size"): Poly.const(1), ("par", "placed_workplace"): Const(None)}
-        I = mk_interp(ctx, inline=lambda call, callee, depth: callee.cls == WORKPLACE, collections={"self.placed_component_list": [c1, c2]}, max_depth=2)
-        outs = I.run_function(cp, bind={"component": cand, "__defaults__": True}, heap=heap)
-        for st, ex in outs:
-            v = ex[1] if ex and ex[0] == "return" else None
-            got = v.v if isinstance(v, Const) else None
-            ctx.instance(construct(cp, f"size={size}"))
-            if got is not exp:
-                ctx.violation(construct(cp, "capacity"), cp.loc(), f"can_put: capacity 3 holding a top-level component and a separately placed child (size 1 each), candidate of size {size} => {v!r} (expected {exp})")
+    for nested in (False, True):
+        for size, exp in ((0.5, True), (1.0, True), (1.5, False), (3.0, False)):
+            # c1 is a top-level component, c2 a child placed on its own (its parent is elsewhere): both take space here.
+            # nested: c2 is c1's own child, listed as a separate entry (set_placed_component lists the parts of a placed assembly
+            # one by one): each entry still counts once
+            c1, c2, cand, par = Obj("c1", COMPONENT), Obj("c2", COMPONENT), Obj("cand", COMPONENT), Obj("par", COMPONENT)
+            heap = {("self", "max_space_size"): Poly.const(3), ("c1", "space_size"): Poly.const(1), ("c2", "space_size"): Poly.const(1), ("cand", "space_size"): Poly.const(size),
+                    ("c1", "parent_component_list"): ListV([]), ("c2", "parent_component_list"): ListV([c1 if nested else par]), ("c1", "child_component_list"): ListV([c2] if nested else []),
+                    ("c2", "child_component_list"): ListV([]), ("par", "space_size"): Poly.const(1), ("par", "placed_workplace"): Const(None),
+                    ("cand", "child_component_list"): ListV([]), ("cand", "parent_component_list"): ListV([])}
+            I = mk_interp(ctx, inline=lambda call, callee, depth: callee.cls == WORKPLACE, collections={"self.placed_component_list": [c1, c2]}, max_depth=2)
+            outs = I.run_function(cp, bind={"component": cand, "__defaults__": True}, heap=heap)
+            for st, ex in outs:
+                v = ex[1] if ex and ex[0] == "return" else None
+                got = v.v if isinstance(v, Const) else None
+                ctx.instance(construct(cp, f"size={size},nested={nested}"))
+                if got is not exp:
+                    what = "an assembly and its part, listed as two entries" if nested else "a top-level component and a separately placed child"
+                    ctx.violation(construct(cp, "capacity"), cp.loc(), f"can_put: capacity 3 holding {what} (size 1 each), candidate of size {size} => {v!r} (expected {exp})")
     ctx.end()
 
 
